@@ -421,6 +421,23 @@ func genHostile(c Case, tier string) []hostileCase {
 			out = append(out, hostileCase{h.BaseWorld(codes), h.EnvSpec{Fork: f}, []h.TxSpec{{Entry: h.ECall, From: h.Sender, To: h.ContractAddr(0), Input: payload, Gas: 6_000_000}},
 				fmt.Sprintf("%s to 0x%02x from depth %d fork=%s payload=%x", kindName(kind), target[19], depth, f, payload), fmt.Sprintf("call-0x%02x", target[19]), nil})
 		}
+	case "allops":
+		// every opcode byte at every stack height 0..18 and at the limit: declared stack bounds must protect the implementation
+		f := h.Fork(c.P[0])
+		for op := int(c.P[1]) * 16; op < int(c.P[1])*16+16; op++ {
+			if op >= 0x60 && op <= 0x7f && op != 0x60 && op != 0x7f {
+				continue // PUSHn: two representatives are enough
+			}
+			for _, hgt := range []int{0, 1, 2, 3, 4, 5, 6, 7, 8, 9, 10, 11, 12, 13, 14, 15, 16, 17, 18, 1023, 1024} {
+				a := h.NewAsm()
+				for i := 0; i < hgt; i++ {
+					a.Op(h.PUSH1, byte(i%7))
+				}
+				a.Op(byte(op), h.STOP)
+				out = append(out, hostileCase{h.BaseWorld([][]byte{a.Bytes(), {h.STOP}}), h.EnvSpec{Fork: f}, []h.TxSpec{{Entry: h.ECall, From: h.Sender, To: h.ContractAddr(0), Gas: 300000, Input: []byte{1, 2, 3, 4}}},
+					fmt.Sprintf("opcode %#x with %d small words on the stack, fork=%s", op, hgt, f), "allops", nil})
+			}
+		}
 	case "jp":
 		// call trees with real Aspects bound and a failure at one join-point firing (every early-return path of the call routine)
 		sc, rr := jpScenario(c.Seed)
@@ -480,6 +497,11 @@ func hostileCases(seed uint64, tier string, salt uint64) []Case {
 		cs = append(cs, Case{Kind: "mut", Seed: h.Mix(seed, salt+3, uint64(i))})
 	}
 	if salt == 0xC03 {
+		for _, f := range []h.Fork{h.Frontier, h.Cancun} {
+			for chunk := 0; chunk < 16; chunk++ {
+				cs = append(cs, Case{Kind: "allops", P: []int64{int64(f), int64(chunk)}})
+			}
+		}
 		// (C20's work counters would charge an Aspect's own execution to the neighbouring instruction)
 		for i := 0; i < nm/2; i++ {
 			cs = append(cs, Case{Kind: "jp", Seed: h.Mix(seed, salt+4, uint64(i))})
@@ -493,7 +515,7 @@ func init() {
 		ID:      "C03",
 		Level:   "exploration",
 		Hostile: true,
-		Rule: "hostile inputs run on a fully initialised host in address-space-capped worker processes that journal each case before executing it (a fatal error kills only the worker and is attributed to its case): kind raw = random byte strings as code (biased towards journal opcodes, calls to 0x64-0x66, boundary pushes) x random calldata x all forks Frontier..Cancun x all six entry points; kind jop = for each journal opcode every operand position swept over {0,1,31,32,33,255,2^16,2^31,2^32-1,2^32+1,2^63-1,2^63,2^64-1,2^64,2^128,2^255,2^256-1, memLen-33..memLen+1} plus random combinations, under memory shapes {empty,32,64,96,544 bytes with boundary length words} and storage shapes {empty, short, all-zero, long, invalid encodings, lengths 2^12..2^64-1}; kind pcall = every call kind to 0x64-0x66 from depth 1 and 3 with truncated / overflowing ABI payloads; kind mut = byte-mutated well-formed journal programs; kind jp = Aspect-bound call trees (real WASM Aspects incl. trapping and gas-exhausting ones) with a provider failure injected at a join-point firing. " +
+		Rule: "hostile inputs run on a fully initialised host in address-space-capped worker processes that journal each case before executing it (a fatal error kills only the worker and is attributed to its case): kind raw = random byte strings as code (biased towards journal opcodes, calls to 0x64-0x66, boundary pushes) x random calldata x all forks Frontier..Cancun x all six entry points; kind jop = for each journal opcode every operand position swept over {0,1,31,32,33,255,2^16,2^31,2^32-1,2^32+1,2^63-1,2^63,2^64-1,2^64,2^128,2^255,2^256-1, memLen-33..memLen+1} plus random combinations, under memory shapes {empty,32,64,96,544 bytes with boundary length words} and storage shapes {empty, short, all-zero, long, invalid encodings, lengths 2^12..2^64-1}; kind pcall = every call kind to 0x64-0x66 from depth 1 and 3 with truncated / overflowing ABI payloads; kind mut = byte-mutated well-formed journal programs; kind allops = every opcode byte at stack heights 0..18, 1023, 1024 on Frontier and Cancun; kind jp = Aspect-bound call trees (real WASM Aspects incl. trapping and gas-exhausting ones) with a provider failure injected at a join-point firing. " +
 			"Oracles: no Go panic escapes an entry point, no worker dies; afterwards CallTree().Current()==nil, call depth 0, static flag clear, and a follow-up top-level call on the same EVM is announced to the debug tracer as a depth-0 Start; a read-cap sentinel (2^16 state reads in one instruction) turns unbounded loops into attributable findings; distinct_nontrivial = distinct (input class, fork, outcome) event shapes",
 		Assumptions: []string{"host initialised as an embedding chain does (chain config, block context with block number, provider, context callbacks)", "crashes needing one specific 256-bit value outside the boundary sets and random draws are not found"},
 		Cases:       func(seed uint64, tier string) []Case { return hostileCases(seed, tier, 0xC03) },
